@@ -53,10 +53,12 @@ VARIABLES db,        \* StoreKeys -> StoreVals \cup {Tomb}
           txs,       \* 1..MaxTx -> [mode, via, buf]; mode: "free" (not issued) | "ro" | "rw" (open) | "dead" (finished)
           nh,        \* handles issued so far (the registry numbers them consecutively)
           readOnly,  \* engine.EngineFacade.readOnly
+          repl,      \* replication.Manager: "running" | "stopped" (Manager.Stop was called: Server.Shutdown does that first,
+                     \* while the gRPC service still answers) | "none" (standalone: the service has no manager)
           rsp        \* reply register: predicted response of the last request (+ the request itself)
 
 evars == <<db, txs, nh, readOnly>>      \* the embedded state
-vars == <<db, txs, nh, readOnly, rsp>>
+vars == <<db, txs, nh, readOnly, repl, rsp>>
 
 -----------------------------------------------------------------------------
 (* Order, prefix, suffix on keys *)
@@ -127,6 +129,7 @@ Init == /\ db = [k \in StoreKeys |-> Tomb]
         /\ txs = [h \in 1..MaxTx |-> [mode |-> "free", via |-> "grpc", buf |-> EmptyBuf]]
         /\ nh = 0
         /\ readOnly = (Role = "replica")        \* replication.Manager.startReplica -> setEngineReadOnly(true)
+        /\ repl = IF Role = "standalone" THEN "none" ELSE "running"
         /\ rsp = Rsp0
 
 -----------------------------------------------------------------------------
@@ -215,7 +218,9 @@ Stats(rq) == /\ rq.op = "stats" /\ CanR
 Compact(rq) == /\ rq.op = "compact" /\ (IF readOnly THEN CanR ELSE CanW)
                /\ Reply(rq, Rsp0) /\ UNCHANGED evars
 
-\* GetNodeInfo: role and primary address as configured, read-only status of the engine as it is NOW
+\* GetNodeInfo: role and primary address as configured, read-only status of the engine as it is NOW - in EVERY state the
+\* node can be in: replica running, replica after Manager.Stop (nothing switches the engine back: it still refuses writes),
+\* primary, standalone, and a primary / standalone engine switched to read-only (and back) at run time
 NodeInfo(rq) == /\ rq.op = "nodeinfo"
                 /\ Reply(rq, [Rsp0 EXCEPT !.info = <<Role, PrimaryOf, readOnly>>]) /\ UNCHANGED evars
 
@@ -235,10 +240,17 @@ ApplyInternal(rq) ==
 SetRO(rq) == /\ rq.op = "setro" /\ Writers = {} /\ Readers = {}
              /\ readOnly' = rq.ro /\ Reply(rq, Rsp0) /\ UNCHANGED <<db, txs, nh>>
 
-Do(rq) == \/ Get(rq) \/ Put(rq) \/ Delete(rq) \/ BatchWrite(rq) \/ Scan(rq)
+\* replication.Manager.Stop: the replication service goes away; the data, the transactions and the MODE stay as they are
+StopRepl(rq) == /\ rq.op = "stoprepl" /\ repl = "running"
+                /\ repl' = "stopped" /\ Reply(rq, Rsp0) /\ UNCHANGED evars
+
+DoData(rq) ==
+          \/ Get(rq) \/ Put(rq) \/ Delete(rq) \/ BatchWrite(rq) \/ Scan(rq)
           \/ Begin(rq) \/ Commit(rq) \/ Rollback(rq) \/ TxGet(rq) \/ TxPut(rq) \/ TxDelete(rq) \/ TxScan(rq)
           \/ Stats(rq) \/ Compact(rq) \/ NodeInfo(rq)
           \/ ApplyInternal(rq) \/ SetRO(rq)
+Do(rq) == \/ StopRepl(rq)
+          \/ DoData(rq) /\ repl' = repl
 
 -----------------------------------------------------------------------------
 (* The table that classifies every entry point of the real API (C16 "enumerated from the interface"): the harness      *)
@@ -367,4 +379,6 @@ ReadOnlyRejectsMutators == [][readOnly /\ rsp'.rq.op \in ClientOps => db' = db /
 ApplyWorks == [][rsp'.rq.op \in ApplierOps => rsp'.ok]_vars
 \* C16: the node information is the truth
 NodeInfoTruthful == [][rsp'.rq.op = "nodeinfo" => rsp'.info = <<Role, PrimaryOf, readOnly>> /\ rsp'.info[3] = readOnly']_vars
+\* C16: stopping the replication service changes neither the data nor what the node enforces
+StopKeepsMode == [][repl' # repl => UNCHANGED evars /\ repl = "running" /\ repl' = "stopped"]_vars
 =============================================================================
